@@ -126,16 +126,18 @@ def main():
     for sh in data["shapes"]:
         sid = sh["id"]
         attrs = dict(sh["attrs"])
-        attrs["ID"] = sid
+        attrs["ID"] = attrs.get("BaseID") or sid
         attrs["VT"] = short_type(attrs["ValueType"])
         attrs["EVT"] = short_type(attrs["ElemValueType"])
         attrs["TT"] = short_type(attrs["Type"])
         attrs["ET"] = short_type(attrs["ElemType"])
-        attrs["M"] = "M_" + sid
+        attrs["M"] = "M_" + attrs["ID"]
         body = sh["struct_def"] + "\n"
         funcs = {}
         for d, key, fname in (("CopyFrom", "copy_from", "Copy%sFromTerraform" % sid), ("CopyTo", "copy_to", "Copy%sToTerraform" % sid), ("Schema", "schema", "GenSchema%s" % sid)):
             txt = sh[key]
+            if txt == "SKIP":
+                continue
             if txt.startswith("PANIC") or txt.startswith("ERROR"):
                 index.append({"shape": sid, "dir": d, "func": fname, "emit_error": txt})
                 continue
@@ -195,7 +197,7 @@ def main():
         if e["shape"] in type_errors:
             e["type_errors"] = type_errors[e["shape"]]
     open(os.path.join(out, "contracts_gen.go"), "w").write("\n".join(contract_lines) + "\n")
-    json.dump({"functions": index, "msg_from": data["msg_from"], "msg_to": data["msg_to"], "msg_schema": data["msg_schema"],
+    json.dump({"flip_diffs": data.get("flip_diffs") or [], "functions": index, "msg_from": data["msg_from"], "msg_to": data["msg_to"], "msg_schema": data["msg_schema"],
                "unused_templates": [tpls[i][1] for i in range(len(tpls)) if i not in used]}, open(os.path.join(out, "index.json"), "w"), indent=1)
     print("tier2: ill-typed shapes: %s" % sorted(type_errors))
     print("tier2: %d shapes, %d functions, %d with contracts" % (len(data["shapes"]), len(index), sum(1 for x in index if x.get("clauses"))))
